@@ -434,6 +434,18 @@ impl HostCtx {
                     Err(e) => format!("err {}", errkind(&e)),
                 }
             }
+            "fs_stat" => {
+                // length and the three timestamps (ns since the epoch)
+                use turmoil::fs::shim::std::fs as sfs;
+                let ns = |t: std::io::Result<std::time::SystemTime>| match t {
+                    Ok(t) => t.duration_since(std::time::UNIX_EPOCH).map(|d| d.as_nanos().to_string()).unwrap_or("neg".into()),
+                    Err(e) => errkind(&e),
+                };
+                match sfs::metadata(format!("/{}", t[1])) {
+                    Ok(m) => format!("ok len={} mtime={} ctime={}", m.len(), ns(m.modified()), ns(m.created())),
+                    Err(e) => format!("err {}", errkind(&e)),
+                }
+            }
             "fs_cat" => {
                 use turmoil::fs::shim::std::fs as sfs;
                 match sfs::read(format!("/{}", t[1])) {
@@ -820,6 +832,13 @@ impl<'a> Case<'a> {
                 for h in 0..self.running.len() {
                     self.sh.notifies[h].notify_one();
                 }
+                // "slow machine": real time passes between steps (more than one tick of virtual time),
+                // which no observable result may depend on
+                let slow = crate::common::SLOW_PCT.load(std::sync::atomic::Ordering::Relaxed);
+                if slow > 0 {
+                    let tick_us = if self.cfg.tick_us > 0 { self.cfg.tick_us } else { self.cfg.tick_ms * 1000 };
+                    std::thread::sleep(std::time::Duration::from_micros(tick_us * slow / 100));
+                }
                 let r = self.sim.step();
                 drain_oracle();
                 let turns = turmoil::verif::drain_turns();
@@ -843,6 +862,24 @@ impl<'a> Case<'a> {
                     "partition_re" => self.sim.partition(a, b),
                     "repair_re" => self.sim.repair(a, b),
                     "hold_re" => self.sim.hold(a, b),
+                    _ => self.sim.release(a, b),
+                }
+                "ok".into()
+            }
+            "partition_set" | "partition1_set" | "repair_set" | "repair1_set" | "hold_set" | "release_set" => {
+                // host sets (comma separated host tokens) passed to the Sim as regexes over node names;
+                // the two sets may overlap
+                let re = |set: &str| {
+                    let names: Vec<String> = set.split(',').map(|h| format!("n{}", &h[1..])).collect();
+                    regex::Regex::new(&format!("^({})$", names.join("|"))).unwrap()
+                };
+                let (a, b) = (re(t[1]), re(t[2]));
+                match t[0] {
+                    "partition_set" => self.sim.partition(a, b),
+                    "partition1_set" => self.sim.partition_oneway(a, b),
+                    "repair_set" => self.sim.repair(a, b),
+                    "repair1_set" => self.sim.repair_oneway(a, b),
+                    "hold_set" => self.sim.hold(a, b),
                     _ => self.sim.release(a, b),
                 }
                 "ok".into()
@@ -919,6 +956,21 @@ impl<'a> Case<'a> {
             "dns" => {
                 let ip = self.sim.lookup(t[1]);
                 format!("ok {}", ipnum(ip))
+            }
+            "dnsbulk" => {
+                // many fresh names at once: summary of the addresses handed out
+                let n: usize = t[2].parse().unwrap();
+                let mut seen = std::collections::HashSet::new();
+                let mut last = String::from("-");
+                let mut x: u128 = 0;
+                for i in 0..n {
+                    let ip = self.sim.lookup(format!("{}{}", t[1], i).as_str());
+                    seen.insert(ip);
+                    let v = ipnum(ip);
+                    x ^= v.to_string().parse::<u128>().unwrap();
+                    last = v.to_string();
+                }
+                format!("ok distinct={} last={} xor={}", seen.len(), last, x)
             }
             "dnsip" => {
                 // literal address passes through and registers nothing
